@@ -729,6 +729,11 @@ func judgeConcurrent(w *proxyWorld, res *Result) {
 			}
 		}
 	}
+	for i := range p.Res {
+		if p.Res[i].EvictOnCond {
+			evicts++
+		}
+	}
 	// C09.a / C05.b / C05.c / C05.d: every surviving client gets the origin's answer
 	for _, ex := range w.exch {
 		if ex.Req.Evict || ex.Req.Raw != "" || ex.Disconnected || !ex.Sent {
@@ -760,6 +765,10 @@ func judgeConcurrent(w *proxyWorld, res *Result) {
 			res.violate(rule, fmt.Sprintf("error-status-%d %s", ex.Status, ctx), "%s: client received %d %q although the origin answered every request successfully [%s]", desc, ex.Status, strings.TrimSpace(string(ex.Body[:min(len(ex.Body), 80)])), pd)
 		case ex.Status >= 400 && !(ex.Status == 416 && ex.Req.Range != ""):
 			res.violate(rule, fmt.Sprintf("error-status-%d %s", ex.Status, ctx), "%s: client received %d although the origin answered every request successfully [%s]", desc, ex.Status, pd)
+		case ex.Status < 200 || (ex.Status >= 300 && ex.Status < 400):
+			// no client of these families sends a conditional request and no resource redirects:
+			// the origin's answer to what the client asked is a 2xx with the body
+			res.violate(rule, fmt.Sprintf("not-the-answer-status-%d %s", ex.Status, ctx), "%s: client sent an unconditional request and received %d with %d body bytes; the origin answers that request with a 2xx and the body [%s]", desc, ex.Status, len(ex.Body), pd)
 		}
 	}
 	if p.Family != "coal" {
